@@ -551,7 +551,7 @@ func main() {
 	appchild.MaybeChild()
 	run = vlib.Start("C12")
 	rogger.SetLevel(rogger.OFF)
-	run.SetRule("scenarios = pool {0,1,4} x connections {1,4,32} x pipelined requests per connection {1,3,8} x gate script {all at once (after 0/30/700 ms), one by one, after the close notice was seen, some never (context expiry)}; every request is framed by the server before Shutdown(ctx) is called, so running / queued-in-pool / framed-not-started states exist by construction. A case is one scenario; distinct by (pool, connections, requests, script, shutdown duration bucket).")
+	run.SetRule("scenarios = pool {0,1,4} x connections {1,4,32} x pipelined requests per connection {1,3,8} x gate script {all at once (after 0/30/700 ms), one by one, after the close notice was seen, some never (context expiry)}; every request is framed by the server before Shutdown(ctx) is called, so running / queued-in-pool / framed-not-started states exist by construction. UDP servers: requests sent while an earlier request is still executing after the Shutdown call, judged when /proc/net/udp shows that the server took them from its socket (udp.go). A case is one scenario; distinct by (pool, connections, requests, script, shutdown duration bucket).")
 	run.Assume("the server's own pollers (500 ms tickers, 2 s idle rule) decide when connections close; return-time verdicts use a 2 s slack and the context deadline itself")
 	var scs []scenario
 	id := 0
@@ -636,6 +636,11 @@ func main() {
 				sid, pool, late := id, pool, late+130*rep
 				conns, first, tlsOn := 1+k%3, []int{1, 3, 4, 6, 12}[(k+rep)%5], k == 2
 				special(func() { splitRequestScenario(sid, pool, conns, first, late, tlsOn) })
+			}
+			for k, lateMs := range []int{120, 600, 1400} {
+				id++
+				sid, pool, n, lateMs := id, pool, 1+(k+rep)%3, lateMs+90*rep
+				special(func() { udpScenario(sid, pool, n, lateMs) })
 			}
 		}
 	}
